@@ -1,12 +1,12 @@
 SPECIFICATION MCSpec
 CONSTANTS
   Relax = {}
-  Mode = "honest"
+  Mode = "revoked"
   MaxBlocks = 2
   Layouts = {"plain"}
-  MaxUnwind = 0
-  Defect = "none"
-  MaxReload = 1
+  MaxUnwind = 1
+  Defect = "no_reissue"
+  MaxReload = 0
 CONSTRAINT Bounded
 VIEW View
 INVARIANT TypeOK
